@@ -375,10 +375,12 @@ __attribute__((noinline)) void run_misc(long id, const char *desc, u64 nrandom, 
         const R y = vf::launder(pv[(i * 7 + 3) % n]);
         { u64 b = 0; memcpy(&b, &x, sizeof(R) < 8 ? sizeof(R) : 8); vf::g_aux0 = b; }
         auto q = au::make_quantity<U>(x), p = au::make_quantity<U>(y);
-        if (std::is_signed<R>::value && std::is_integral<R>::value && x == std::numeric_limits<R>::lowest()) { g_st.skipped++; return; }
+        // std::abs works in the promoted type: |lowest()| is undefined only when that type is the rep itself (int and wider)
+        if (std::is_signed<R>::value && std::is_integral<R>::value && sizeof(R) >= sizeof(int) && x == std::numeric_limits<R>::lowest()) { g_st.skipped++; return; }
         auto ab = au::abs(q).in(U{});
         g_st.evals++;
-        if (!vfw::same_value(ab, (decltype(ab))std::abs(x))) mismatch("abs", x, x, ab, (decltype(ab))std::abs(x));
+        if (!std::is_same<decltype(ab), decltype(std::abs(x))>::value) mismatch("abs result rep", x, x, ab, std::abs(x));
+        else if (!vfw::same_value(ab, (decltype(ab))std::abs(x))) mismatch("abs", x, x, ab, (decltype(ab))std::abs(x));
         auto cs = au::copysign(q, p).in(U{});
         auto cs2 = au::copysign(q, y).in(U{});
         auto cs3 = au::copysign(x, p);
